@@ -258,17 +258,39 @@ func conc(args []string) {
 				pr.tevents = append(pr.tevents, xpm.StepEvent(0, a.ev, nc))
 			}
 		}
-		letGo := func(pid int) {
+		// absorb arrivals that are already queued (a process may have run further than the specification expects)
+		drain := func() {
+			for {
+				select {
+				case a := <-theGate.arrive:
+					pending[a.pid] = append(pending[a.pid], a)
+				default:
+					return
+				}
+			}
+		}
+		letGo := func(pid int) bool {
 			pr := procs[pid]
 			if !pr.started {
 				pr.started = true
 				close(startGate[pid])
-				return
+				return true
+			}
+			drain()
+			if pr.fin || len(pending[pid]) > 0 {
+				return false // it is not parked at a trace point: it finished, or an arrival is still unconsumed
 			}
 			theGate.mu.Lock()
 			g := theGate.grant[pid]
 			theGate.mu.Unlock()
-			g <- struct{}{}
+			select {
+			case g <- struct{}{}:
+				return true
+			case <-time.After(waitLong):
+				fmt.Fprintf(os.Stderr, "INFRA: schedule %d: process %d is not parked at a trace point\n", nsched, pid)
+				os.Exit(2)
+			}
+			return false
 		}
 		blocked := 0 // pid of the compiler blocked in mu.Lock(), if any
 		infra := func(msg string) {
@@ -292,9 +314,18 @@ func conc(args []string) {
 			}
 			report(ConcOut{nsched, nsteps, fmt.Sprintf("process %d reached trace point %q, the specification expects %v", pid, procs[pid].at, want), "trace-point-order", ""})
 		}
+		aborted := false
 		for _, st := range s.Steps {
+			if aborted {
+				break
+			}
 			nsteps++
 			pr := procs[st.P]
+			if pr.fin {
+				report(ConcOut{nsched, nsteps, fmt.Sprintf("process %d (%s %s) finished although the specification has further steps for it (%s)", st.P, pr.kind, pr.expr, st.A), "trace-point-order", ""})
+				aborted = true
+				break
+			}
 			switch st.A {
 			case "arrive":
 				letGo(st.P)
